@@ -26,7 +26,7 @@ Dep_FirstJoinCreateSender == TRUE \* A8 (content.creator is always the create se
 Dep_RestrictedUnsupportedRejects == TRUE \* A14
 
 EvKeys == {"pl", "jr", "topic", "msg", "redaction", "tpi", "custom"}
-NKeys == {"room"}
+NKeys == {"room", "here"}
 
 Memberships == {"join", "invite", "leave", "ban", "knock"}
 
